@@ -94,6 +94,13 @@ func TestC16(t *testing.T) {
 		}
 	}
 
+	var bls *blsPlan
+	if only("evmbls") {
+		// EVM precompile gadgets for BLS12-381 (evmbls_test.go)
+		bls = planBls(r)
+		probes = append(probes, bls.probes()...)
+	}
+
 	// ---- hint liveness screen
 	stuck := map[string]bool{}
 	stuckProbes := map[string]hintProbe{}
@@ -275,6 +282,9 @@ func TestC16(t *testing.T) {
 			tasks = append(tasks, task{fam: "ecpair", data: c, cost: 3000, done: func(o outcome) { judgeEcpair(r, c, o) }})
 		}
 	}
+	if bls != nil {
+		tasks = append(tasks, bls.tasks(r, stuck)...)
+	}
 	workers := 12
 	r.Set("worker_processes", workers)
 	runPool(r, tasks, workers, 5*time.Minute)
@@ -353,6 +363,15 @@ func finish(r *vcore.Run) {
 		r.Require("evm.expmod.correct", 10)
 		r.Require("evm.ecpair.accepted-as-native", 3)
 		r.Require("evm.ecpair.rejected-as-native", 3)
+		r.Require("evmbls.value.correct", 25)
+		r.Require("evmbls.value.result-at-infinity.correct", 3)
+		r.Require("evmbls.predicate.accepted-as-native", 6)
+		r.Require("evmbls.rejected-as-native", 10)
+		r.Require("evmbls.rejected-as-native.ECPairBLSIsOnG1", 2)
+		r.Require("evmbls.rejected-as-native.ECPairBLSIsOnG2", 2)
+		for _, g := range blsGadget {
+			r.Require("evmbls.kind."+g, 1)
+		}
 		r.Require("adv.hint-calls-intercepted", 20)
 		r.Require("adv.lies.solve-failed", 10)
 		r.Require("adv.honest.solved-and-correct", 3)
